@@ -71,6 +71,10 @@ func (c06) Gen(tier string, seed int64, emit0 func([]Ev)) {
 				pmt = q
 			}
 		}
+		if ns >= 2 && si%7 == 3 {
+			// two stream entries with the same elementary PID (the syntax allows it): both are streams, both are listed
+			pmt.Streams[len(pmt.Streams)-1].Pid = pmt.Streams[r.Intn(len(pmt.Streams)-1)].Pid
+		}
 		sec0, pmt0 := pmtSection(pmt), pmt
 		for _, ptr := range []int{0, 1, 5, 100, 182, 71} {
 			if !thorough && (si+ptr)%2 == 1 && ptr != 0 && ptr != 71 {
